@@ -49,3 +49,50 @@ Proof.
   rewrite (gen_rename E m st dol (zlen acc) f o Hinj); [|destruct o; try exact I; discriminate Ho].
   destruct (gen_ocode E m st dol (zlen acc) o); try reflexivity; apply IH; exact Hr.
 Qed.
+
+(** ---- C07 at program level: a diagnostic raised anywhere is never lost ---- *)
+
+(* once raised, the diagnostic flag survives everything emitted afterwards *)
+Lemma codegen_diag_sticky E m st dol : forall os acc bs d', codegen E m st dol acc true os = GOk bs d' -> d' = true.
+Proof.
+  induction os as [|o r IH]; intros acc bs d' H; cbn [codegen] in H; [inversion H; reflexivity|].
+  destruct (gen_ocode E m st dol (zlen acc) o); try discriminate H; eapply IH; exact H.
+Qed.
+
+(* a diagnosed ocode anywhere in the program - after any prefix, before any suffix - shows in the final flag *)
+Theorem codegen_diag_reaches_end E m st dol o :
+  (forall len, exists b, gen_ocode E m st dol len o = BytesDiag b) ->
+  forall os1 os2 acc d bs d', codegen E m st dol acc d (os1 ++ o :: os2) = GOk bs d' -> d' = true.
+Proof.
+  intros Ho. induction os1 as [|x r IH]; intros os2 acc d bs d' H; cbn [app codegen] in H.
+  - destruct (Ho (zlen acc)) as [b Hb]. rewrite Hb in H. eapply codegen_diag_sticky; exact H.
+  - destruct (gen_ocode E m st dol (zlen acc) x); try discriminate H; eapply IH; exact H.
+Qed.
+
+(* instances: ocodes that are diagnosed wherever they stand.  (A branch to a label defined nowhere is NOT one of them in a
+   whole program: pass 1 enters the name with value 0, so codegen finds it - the known finding "JMP nosuchname".) *)
+Lemma text_target_diag E m st dol md name : forall len, exists b, gen_ocode E m st dol len (OJcc md name JText) = BytesDiag b.
+Proof. intros len. exists []. reflexivity. Qed.
+
+Lemma negative_resb_diag E m st dol n : n < 0 -> forall len, exists b, gen_ocode E m st dol len (OResb n) = BytesDiag b.
+Proof. intros H len. exists []. cbn [gen_ocode]. destruct (n <? 0) eqn:En; [reflexivity | apply Z.ltb_ge in En; lia]. Qed.
+
+Lemma int_out_of_range_diag E m st dol z : ~ (0 <= z <= 255) -> forall len, exists b, gen_ocode E m st dol len (OInt (Some z)) = BytesDiag b.
+Proof.
+  intros H len. exists []. cbn [gen_ocode]. unfold in_range.
+  destruct (z =? 3) eqn:E3; [apply Z.eqb_eq in E3; exfalso; apply H; subst z; split; discriminate|].
+  destruct (0 <=? z) eqn:A; destruct (z <=? 255) eqn:B; cbn [andb]; try reflexivity.
+  apply Z.leb_le in A. apply Z.leb_le in B. exfalso. apply H. split; assumption.
+Qed.
+
+Theorem unencodable_statements_flagged E m st dol o :
+  (exists md name, o = OJcc md name JText) \/ (exists n, n < 0 /\ o = OResb n) \/ (exists z, ~ (0 <= z <= 255) /\ o = OInt (Some z)) \/ o = OJmpFarText ->
+  forall os1 os2 acc d bs d', codegen E m st dol acc d (os1 ++ o :: os2) = GOk bs d' -> d' = true.
+Proof.
+  intros H. apply codegen_diag_reaches_end.
+  destruct H as [[md [name ->]]|[[n [Hn ->]]|[[z [Hz ->]]| ->]]].
+  - apply text_target_diag.
+  - apply negative_resb_diag; exact Hn.
+  - apply int_out_of_range_diag; exact Hz.
+  - intros len. exists []. reflexivity.
+Qed.
